@@ -421,6 +421,8 @@ class World:  # pylint: disable=too-many-instance-attributes
         self.objs = []
         for row in self.table:
             self.objs.append(self.ws[row["ws"]].get_entity(row["uid"])[0])
+        if self.group is not None:     # the container group is an object of the closed session too: fetch it again
+            self.group = self.ws[1].get_entity(self.group.uid)[0]
 
     def close(self):
         try:
